@@ -273,7 +273,7 @@ def check_line_oracles(ctx, base, mesh, dname, ax, dx, order, periodic, valid, c
                       ring_len=L, restrict2valid=False,
                       maxdiff_over_scale=_md(r1.array, exp) / scale, **info)
         shifts = list(range(1, L)) if L <= 7 else sorted(
-            {1, L - 1, *[int(x) for x in rng.integers(1, L, 3)]})
+            {1, L - 1, *[int(x) for x in rng.integers(1, L, 2)]})
         if nd > 1 and len(shifts) > 3:
             shifts = sorted({int(x) for x in rng.choice(shifts, 3, replace=False)})
         for s in shifts:
